@@ -15,10 +15,95 @@ import Tickit.Proof.Sgr
 namespace Tickit.Life
 open TermBuf (WF)
 
+/-- The slot tables of the default event loop between two calls: `revents` belongs to the slots, the slots in use fit the
+    blocks allocated, and there are no more slots than watches handed out (and the terminal's). -/
+structure IoInv (io : IoSt) : Prop where
+  rev : io.revents.size = io.slots.size
+  cap : io.slots.size ≤ io.alloc
+  pos : 0 < io.alloc
+  recs : io.recs.size ≤ ioCap
+  slots : io.slots.size ≤ io.recs.size + 1
+
+theorem ioInv_init : IoInv {} := ⟨rfl, by decide, by decide, by decide, by decide⟩
+
+/-- `evloop_io`: the tables are doubled before they overflow. -/
+theorem register_inv {io : IoSt} (I : IoInv io) (k : Nat) (h : io.slots.size ≤ io.recs.size) : IoInv (io.register k) := by
+  unfold IoSt.register
+  split
+  · exact ⟨by simp [I.rev], by simpa using I.cap, I.pos, I.recs, by simpa using I.slots⟩
+  · by_cases he : io.slots.size = io.alloc
+    · simp only [he, if_true]
+      refine ⟨by simp [I.rev], ?_, ?_, I.recs, ?_⟩
+      · have := I.pos; simp only [Array.size_push]; omega
+      · have := I.pos; show 0 < io.alloc * 2; omega
+      · simp only [Array.size_push]; omega
+    · simp only [he, if_false]
+      refine ⟨by simp [I.rev], ?_, I.pos, I.recs, ?_⟩
+      · have := I.cap; simp only [Array.size_push]; omega
+      · simp only [Array.size_push]; omega
+
+theorem cancel_inv {io : IoSt} (I : IoInv io) (k : Nat) : IoInv (io.cancel k) := by
+  unfold IoSt.cancel
+  exact ⟨by simp [I.rev], by simpa using I.cap, I.pos, I.recs, by simpa using I.slots⟩
+
+theorem watch_inv {io : IoSt} (I : IoInv io) (r : IoRec) : IoInv (io.watch r) := by
+  unfold IoSt.watch
+  split
+  · exact I
+  · rename_i hlt
+    have hlt : io.recs.size < ioCap := by omega
+    have I' : IoInv { io with recs := io.recs.push r } :=
+      ⟨I.rev, I.cap, I.pos, by simp only [Array.size_push]; omega, by have := I.slots; simp only [Array.size_push]; omega⟩
+    have hs : ({ io with recs := io.recs.push r } : IoSt).slots.size ≤ ({ io with recs := io.recs.push r } : IoSt).recs.size := by
+      have := I.slots; simp only [Array.size_push]; omega
+    exact register_inv I' _ hs
+
+theorem act_inv {io : IoSt} (I : IoInv io) (self : Nat) (a : IAct) : IoInv (io.act self a) := by
+  cases a with
+  | reg ready => exact watch_inv I _
+  | cancel k => exact cancel_inv I k
+  | cancelSelf => exact cancel_inv I self
+
+theorem acts_inv (self : Nat) : ∀ (acts : List IAct) {io : IoSt}, IoInv io → IoInv (acts.foldl (fun io a => io.act self a) io)
+  | [], _, I => I
+  | a :: rest, _, I => acts_inv self rest (act_inv I self a)
+
+theorem poll_inv {io : IoSt} (I : IoInv io) : IoInv io.poll := by
+  unfold IoSt.poll
+  exact ⟨by simp, I.cap, I.pos, I.recs, I.slots⟩
+
+theorem log_inv {io : IoSt} (I : IoInv io) (l : List String) : IoInv { io with log := l } :=
+  ⟨I.rev, I.cap, I.pos, I.recs, I.slots⟩
+
+/-- The dispatch loop of `evloop_run`, whatever the callbacks register and cancel: every read of `pollfds[idx]` goes to
+    the block `evdata->pollfds` points to at that moment and lies inside it, and the loop ends. -/
+theorem dispatch_ok : ∀ (fuel idx : Nat) {io : IoSt}, IoInv io → ioCap + 2 ≤ idx + fuel → idx ≤ ioCap + 1 →
+    ∃ io', IoSt.dispatch fuel idx io = .ok io' ∧ IoInv io'
+  | 0, idx, io, _, h, hle => by omega
+  | fuel + 1, idx, io, I, h, _ => by
+    unfold IoSt.dispatch
+    by_cases hd : io.slots.size ≤ idx
+    · rw [if_pos hd]; exact ⟨io, rfl, I⟩
+    · rw [if_neg hd]
+      have hrd : io.rd io.gen idx = .ok () := by
+        unfold IoSt.rd
+        rw [if_neg (by simp)]
+        have := I.cap
+        rw [if_neg (by omega)]
+        rfl
+      have hidx : idx + 1 ≤ ioCap + 1 := by have := I.slots; have := I.recs; omega
+      simp only [hrd, bind_ok]
+      split
+      · split
+        · exact dispatch_ok fuel (idx + 1) (acts_inv _ _ (log_inv I _)) (by omega) hidx
+        · exact dispatch_ok fuel (idx + 1) I (by omega) hidx
+      · exact dispatch_ok fuel (idx + 1) I (by omega) hidx
+
 /-- The invariant between two operations of `Model/LifeOut.lean`. -/
 structure OInv (o : OTop) : Prop where
   top : TopInv o.top
   wf : WF o.o.tb
+  io : IoInv o.io
 
 /-- The operations the theorems of this layer cover: what `XOp.covered` covers below, and every operation of this layer
     (a buffer of any length at any moment, printing any non-empty text, any cursor position, any capability report, any
@@ -35,11 +120,32 @@ theorem wf_fresh (known : Bool) : WF (OutSt.fresh known).tb := by
 theorem wf_clear_out {tb : TermBuf.State} (h : WF tb) : WF { tb with out := [] } := h
 
 /-- One call of `src/term.c` / the xterm driver from a well-formed buffer: it is defined and leaves the buffer well-formed. -/
-theorem withTb_ok {o : OTop} {r : TermBuf.Outcome} (T : TopInv o.top) (tail : String)
+theorem withTb_ok {o : OTop} {r : TermBuf.Outcome} (T : TopInv o.top) (J : IoInv o.io) (tail : String)
     (h : ∃ tb, r = .ok tb ∧ WF tb) : ∃ o' s, withTb o r tail = .ok (o', s) ∧ OInv o' := by
   obtain ⟨tb, hr, hwf⟩ := h
   subst hr
-  exact ⟨_, _, rfl, ⟨T, wf_clear_out hwf⟩⟩
+  exact ⟨_, _, rfl, ⟨T, wf_clear_out hwf, J⟩⟩
+
+theorem ioAfter_ok (top : Top) (op : XOp) (r : String) {io : IoSt} (I : IoInv io) :
+    ∃ io', ioAfter top op r io = .ok io' ∧ IoInv io' := by
+  have I0 : IoInv (if (!instAlive top) = true then ({} : IoSt) else io) := by
+    split
+    · exact ioInv_init
+    · exact I
+  unfold ioAfter
+  cases op with
+  | itick toks =>
+    dsimp only
+    split
+    · exact dispatch_ok ioFuel 0 (poll_inv I0) (by unfold ioFuel; omega) (by omega)
+    · exact ⟨_, rfl, I0⟩
+  | _ => exact ⟨_, rfl, I0⟩
+
+theorem ystepIo_ok {o : OTop} (I : OInv o) (c : Bool) {io : IoSt} (J : IoInv io) :
+    ∃ o' r, ystepIo o c io = .ok (o', r) ∧ OInv o' := by
+  cases c with
+  | false => exact ⟨o, _, rfl, I⟩
+  | true => exact ⟨_, _, rfl, ⟨I.top, I.wf, J⟩⟩
 
 theorem tbStep_ok {tb : TermBuf.State} (hwf : WF tb) (op : TermBuf.Op) (hok : TermBuf.OpOK op) :
     ∃ tb', TermBuf.step tb op = .ok tb' ∧ WF tb' := by
@@ -79,8 +185,9 @@ theorem ystep_ok {tc : TCfg} (R : TRepaired tc) (hcap : 19 ≤ Gen.Sgr.paramsCap
   cases op with
   | x op =>
     obtain ⟨top', r, hs, T'⟩ := xstep_top_ok R I.top op h
-    simp only [ystep, hs, bind_ok, pure_ok]
-    refine ⟨_, _, rfl, ⟨T', ?_⟩⟩
+    obtain ⟨io', hio, J⟩ := ioAfter_ok top' op r I.io
+    simp only [ystep, hs, bind_ok, pure_ok, hio]
+    refine ⟨_, _, rfl, ⟨T', ?_, J⟩⟩
     dsimp only
     split
     · exact wf_fresh _
@@ -95,14 +202,14 @@ theorem ystep_ok {tc : TCfg} (R : TRepaired tc) (hcap : 19 ≤ Gen.Sgr.paramsCap
     · exact ⟨o, _, rfl, I⟩
     · split
       · exact ⟨o, _, rfl, I⟩
-      · exact withTb_ok I.top "" (tbStep_ok I.wf (.setbuf n) trivial)
+      · exact withTb_ok I.top I.io "" (tbStep_ok I.wf (.setbuf n) trivial)
   | tprint bytes =>
     simp only [ystep]
     split
     · exact ⟨o, _, rfl, I⟩
     · split
       · exact ⟨o, _, rfl, I⟩
-      · refine withTb_ok I.top "" (tbStep_ok I.wf (.printn bytes bytes.length) ⟨Nat.le_refl _, fun h0 => ?_⟩)
+      · refine withTb_ok I.top I.io "" (tbStep_ok I.wf (.printn bytes bytes.length) ⟨Nat.le_refl _, fun h0 => ?_⟩)
         exact absurd (List.length_eq_zero_iff.1 h0) h
   | tgoto line col =>
     simp only [ystep]
@@ -110,14 +217,14 @@ theorem ystep_ok {tc : TCfg} (R : TRepaired tc) (hcap : 19 ≤ Gen.Sgr.paramsCap
     · exact ⟨o, _, rfl, I⟩
     · split
       · exact ⟨o, _, rfl, I⟩
-      · exact withTb_ok I.top "" (tbStep_ok I.wf (.goto line col) trivial)
+      · exact withTb_ok I.top I.io "" (tbStep_ok I.wf (.goto line col) trivial)
   | tflush =>
     simp only [ystep]
     split
     · exact ⟨o, _, rfl, I⟩
     · split
       · exact ⟨o, _, rfl, I⟩
-      · exact withTb_ok I.top "" (tbStep_ok I.wf .flush trivial)
+      · exact withTb_ok I.top I.io "" (tbStep_ok I.wf .flush trivial)
   | tcaps rgb8 colon viaCtl =>
     simp only [ystep]
     split
@@ -126,15 +233,17 @@ theorem ystep_ok {tc : TCfg} (R : TRepaired tc) (hcap : 19 ≤ Gen.Sgr.paramsCap
       · exact ⟨o, _, rfl, I⟩
       · obtain ⟨top', r, hs, T'⟩ := xstep_top_ok R I.top (.tpush []) trivial
         simp only [hs, bind_ok, pure_ok]
-        exact ⟨_, _, rfl, ⟨T', I.wf⟩⟩
+        exact ⟨_, _, rfl, ⟨T', I.wf, I.io⟩⟩
   | tsetpen set pen =>
     simp only [ystep]
     split
     · exact ⟨o, _, rfl, I⟩
     · split
       · exact ⟨o, _, rfl, I⟩
-      · exact withTb_ok (o := { top := o.top, o := { o.o with cache := TermPen.termCache set xtermColors o.o.cache pen } }) I.top ""
+      · exact withTb_ok (o := { top := o.top, o := { o.o with cache := TermPen.termCache set xtermColors o.o.cache pen }, io := o.io }) I.top I.io ""
           (drvChpen_ok I.wf hcap _ _ _)
+  | iio ready acts => exact ystepIo_ok I _ (watch_inv I.io _)
+  | iiocancel k => exact ystepIo_ok I _ (cancel_inv I.io k)
 
 theorem yrun_ok {tc : TCfg} (R : TRepaired tc) (hcap : 19 ≤ Gen.Sgr.paramsCap) : ∀ (ops : List YOp) (o : OTop), OInv o →
     (∀ op ∈ ops, op.covered) → ∃ o', yrunOps tc o ops = .ok o' ∧ OInv o'
@@ -148,11 +257,12 @@ theorem yrun_ok {tc : TCfg} (R : TRepaired tc) (hcap : 19 ≤ Gen.Sgr.paramsCap)
     exact hr
 
 /-- The operations a history starts with. -/
-theorem ystep_start_ok {tc : TCfg} (R : TRepaired tc) (o : OTop) (op : XOp) (h : op.isNew = true) :
+theorem ystep_start_ok {tc : TCfg} (R : TRepaired tc) (o : OTop) (hJ : IoInv o.io) (op : XOp) (h : op.isNew = true) :
     ∃ o' r, ystep tc o (.x op) = .ok (o', r) ∧ OInv o' := by
   obtain ⟨top', r, hs, T'⟩ := xstep_start_ok R o.top op h
-  simp only [ystep, hs, bind_ok, pure_ok]
-  refine ⟨_, _, rfl, ⟨T', ?_⟩⟩
+  obtain ⟨io', hio, J⟩ := ioAfter_ok top' op r (io := o.io) hJ
+  simp only [ystep, hs, bind_ok, pure_ok, hio]
+  refine ⟨_, _, rfl, ⟨T', ?_, J⟩⟩
   cases op <;> simp only [XOp.isNew, Bool.false_eq_true] at h
   · rename_i bop
     cases bop <;> simp only [XOp.isNew, Bool.false_eq_true] at h
@@ -163,7 +273,7 @@ theorem ystep_start_ok {tc : TCfg} (R : TRepaired tc) (o : OTop) (op : XOp) (h :
 theorem yrun_from_start {tc : TCfg} (R : TRepaired tc) (hcap : 19 ≤ Gen.Sgr.paramsCap) (start : XOp) (hstart : start.isNew = true)
     (ops : List YOp) (h : ∀ op ∈ ops, op.covered) :
     ∃ o', yrunOps tc {} (.x start :: ops) = .ok o' ∧ OInv o' := by
-  obtain ⟨o1, r, hs, I1⟩ := ystep_start_ok R ({} : OTop) start hstart
+  obtain ⟨o1, r, hs, I1⟩ := ystep_start_ok R ({} : OTop) ioInv_init start hstart
   obtain ⟨o', hr, I'⟩ := yrun_ok R hcap ops o1 I1 h
   refine ⟨o', ?_, I'⟩
   unfold yrunOps
@@ -190,10 +300,11 @@ theorem yrun_end {tc : TCfg} (R : TRepaired tc) (hcap : 19 ≤ Gen.Sgr.paramsCap
     ∃ o', yrunOps tc {} (.x start :: ops ++ [.x (.base .«end»)]) = .ok o' ∧ o'.top.anythingLeft = false ∧ o'.top.fail = none := by
   obtain ⟨o1, hr, I1⟩ := yrun_from_start R hcap start hstart ops h
   obtain ⟨top2, r, he, hleft, hfail, _⟩ := end_ok R I1.top
-  refine ⟨⟨top2, o1.o⟩, ?_, hleft, hfail⟩
+  obtain ⟨io2, hio, _⟩ := ioAfter_ok top2 (.base .«end») r I1.io
+  refine ⟨⟨top2, o1.o, io2⟩, ?_, hleft, hfail⟩
   rw [show YOp.x start :: ops ++ [YOp.x (.base .«end»)] = (YOp.x start :: ops) ++ [YOp.x (.base .«end»)] from rfl]
   rw [yrunOps_append tc (.x start :: ops) [.x (.base .«end»)] {} o1 hr]
   have hq : (XOp.base Op.«end»).quiet = true := rfl
-  simp only [yrunOps, ystep, he, bind_ok, pure_ok, hq, Bool.true_or, if_true]
+  simp only [yrunOps, ystep, he, bind_ok, pure_ok, hq, Bool.true_or, if_true, hio]
 
 end Tickit.Life
